@@ -221,7 +221,7 @@ GCallManyCreate ==
 
 GEthCallCreate ==
   /\ Started /\ cur.n = 0
-  /\ \E from \in {RandomElement(Senders)}, ck \in {RandomElement({"cell", "bad"})} :
+  /\ \E from \in {RandomElement(Senders)}, ck \in {RandomElement({"cell", "bad", "big"})} :
        Push(ReadStep("ethcall", Tx("create", from, NULL, ck, <<>>, NoLc, "ample")))
   /\ UNCHANGED <<chain, cur, world, pool, snaps, maxEver, dur, ctr>>
 
@@ -244,8 +244,9 @@ GCallMany ==
 (* eth_call immediately followed by the same transaction (C17) *)
 GPredicted ==
   /\ Started /\ cur.n = 0
-  /\ \E from \in {RandomElement(Senders)}, to \in {RandomElement(Cells \cup {"dead"})}, ops \in {RandomElement(Progs \cup ReadProgs)}, cr \in {Pick(<<0, 0, 1>>)} :
-       LET tx == IF cr = 1 THEN Tx("create", from, NULL, "cell", <<>>, NoLc, "ample") ELSE ReadTx(from, to, ops)
+  /\ \E from \in {RandomElement(Senders)}, to \in {RandomElement(Cells \cup {"dead"})}, ops \in {RandomElement(Progs \cup ReadProgs)}, cr \in {Pick(<<0, 0, 1>>)},
+        ck \in {Pick(<<"cell", "big">>)} :    \* "big": runtime code one byte over EIP-170's 24576 (the engine lifts that limit)
+       LET tx == IF cr = 1 THEN Tx("create", from, NULL, ck, <<>>, NoLc, "ample") ELSE ReadTx(from, to, ops)
        IN  /\ AddTx(TTok(ctr.x), tx, ITok(ctr.i), cur.n, CurHash, CurTs, PredSeen(tx))
            /\ sched' = sched \o <<ReadStep("ethcall", tx),
                                   [op |-> "tx", via |-> IF cr = 1 THEN "deploy" ELSE "call", from |-> tx.from, to |-> tx.to, ckind |-> tx.ckind,
